@@ -1,5 +1,5 @@
 \* the pinned run loop (skips even when an interrupt signal is latched): must violate (defect D1)
-CONSTANTS TB = 2  N = 5  FixPending = FALSE  FixSkipZero = TRUE  Family = "timers"  FixAudioSkip = TRUE
+CONSTANTS TB = 2  N = 5  FixPending = FALSE  FixSkipZero = TRUE  Family = "timers"  FixAudioSkip = TRUE  GuardSeesVectored = TRUE
 INIT Init
 NEXT Next
 INVARIANT SlicingInvariant
